@@ -45,7 +45,7 @@ class TLCResult:
         self.assume_false = "Assumption" in out and "is false" in out
         self.coverage = {}
         # coverage lines:  <Action line 12, col 1 to line 14, col 30 of module M>: 12:34
-        for m in re.finditer(r"^<(\w+) line \d+, col \d+ to line \d+, col \d+ of module (\w+)>: (\d+):(\d+)",
+        for m in re.finditer(r"^<(\w+) line \d+, col \d+ to line \d+, col \d+ of module (\w+)(?: \([^)]*\))?>: (\d+):(\d+)",
                              out, re.M):
             self.coverage[m.group(1)] = max(self.coverage.get(m.group(1), 0), int(m.group(4)))
         self.errors = [l for l in out.splitlines() if l.startswith("Error:")]
